@@ -22,6 +22,7 @@ def scriptOps : Go.DOps DW where
     | [] => ((none, some ['n','o',' ','a','n','s','w','e','r']), w)
     | .fail dur :: rest => ((none, some ['f','a','i','l','e','d']), (rest, w.2 + dur))
     | .ok d dur :: rest => ((some ⟨d⟩, none), (rest, w.2 + dur))
+  fetchJWKS w _ := ((none, some ['n','o','t',' ','s','c','r','i','p','t','e','d']), w)   -- (not used by the discovery functions)
 
 /-- the constants as the source has them -/
 def codeDF : Facts := { maxRetries := 5, baseDelay := 1000000000, maxDelay := 30000000000, retryInterval := 0, loops := true, initWait := 0 }
